@@ -1,8 +1,157 @@
 import RbV.Basic.Codec
-/-! Driver for property C02 (line protocol → verdict). -/
-namespace RbV.Drv.C02
-open RbV.Codec
+import RbV.Basic.AlignCodec
+import RbV.Ref.Gotoh
+import RbV.Ref.Banded
+/-! Driver for property C02: banded alignment sound, exact when the band is the whole matrix, budget guard.
 
-def verdict (_toks : List String) (_out : String) : String := "bad-op unimplemented"
+`c02 const => min:<MIN_SCORE>`
+`c02 cap:… kw:<k>:<w> sc:… w:… <entry>,<x>,<y>[,args];… => <aln>,h:same|differs;…`   (see harness/src/c02.rs)
+
+Every call is decided by `Align.acceptBanded` (theorems `C02_sound`, `C02_exact_fullband`).  `full` (the band is
+the whole matrix) is computed here from the reference k-mer match count and the subset selector; `exact` is
+demanded when `full` and both sequences are at most 64 long (the `Sane` envelope of C01). -/
+namespace RbV.Drv.C02
+open RbV.Codec RbV.Align RbV.AlignCodec
+
+structure Call where
+  entry : String
+  x : List Nat
+  y : List Nat
+  args : List String
+
+def parseCall (alpha : List Nat) (s : String) : Option Call :=
+  match s.splitOn "," with
+  | e :: xh :: yh :: args =>
+    if e = "big" then
+      match args with
+      | [lx, ly] => do
+        let lx ← parseNat lx
+        let ly ← parseNat ly
+        let a ← alpha[0]?
+        let b ← alpha[1]?
+        pure ⟨e, List.replicate lx a, List.replicate ly b, args⟩
+      | _ => none
+    else do
+      let x ← parseHex xh
+      let y ← parseHex yh
+      pure ⟨e, x, y, args⟩
+  | _ => none
+
+/-- the alignment mode an entry point runs in -/
+def entryMode (e : String) : Option String :=
+  if e ∈ ["custom", "prehash", "tm", "sm", "fm", "exp", "path", "big"] then some "custom"
+  else if e = "sgprehash" then some "semiglobal"
+  else if e ∈ ["global", "semiglobal", "local"] then some e
+  else none
+
+def selected (bits total : Nat) : Nat :=
+  (List.range total).countP (fun i => bits.testBit (i % 64))
+
+/-- number of matches handed to the band construction (0 ⇒ the band is the whole matrix) -/
+def suppliedMatches (k : Nat) (c : Call) : Option Nat :=
+  let total := kmerMatchCount k c.x c.y
+  match c.entry, c.args with
+  | "sm", [b] => (parseNat b).map (selected · total)
+  | "exp", [_, _, b] => (parseNat b).map (selected · total)
+  | "path", [b, _] => (parseNat b).map (selected · total)
+  | "fm", [l] => if l = "-" then some 0 else some (l.splitOn "+").length
+  | "big", [_, _] => some total
+  | _, [] => some total
+  | _, _ => none
+
+/-- length of the final run of `o` -/
+def trailing (o : Op) (l : List Op) : Nat := (l.reverse.takeWhile (· == o)).length
+
+/-- Known defect shape (KNOWN_FINDINGS C02-split-gap): the banded DP lets a suffix clip be followed by further
+insertions (deletions) and charges a second gap-open for what is one run in the reported path.  Recognised as:
+recomputed − reported = −gap_open > 0, the path ends with a run of ≥ 2 insertions and y has a clipped suffix
+(or ≥ 2 deletions and x has a clipped suffix). -/
+def splitGapShape (sc : Sc) (cl : Clip) (x y : List Nat) (o : Out) : Bool :=
+  match score sc .none (slice x o.xs o.xe) (slice y o.ys o.ye) (coreOps o.ops) with
+  | some c =>
+    let rec' := c + clipPen cl x.length y.length o.xs o.xe o.ys o.ye
+    let core := coreOps o.ops
+    sc.go < 0 && rec' - o.score == - sc.go &&
+      ((trailing .ins core ≥ 2 && o.ye < y.length) || (trailing .del core ≥ 2 && o.xe < x.length))
+  | none => false
+
+def checkCall (sc : Sc) (cl : Clip) (k : Nat) (idx : Nat) (c : Call) (outS : String) : Except String (List String) :=
+  match entryMode c.entry with
+  | none => .error "bad-op entry"
+  | some mode =>
+  match modeClip mode cl, suppliedMatches k c with
+  | some (cl', filt), some nm =>
+    match parseOut outS with
+    | none => .error ("bad-op output-call" ++ toString idx)
+    | some (o, rest) =>
+      let (x, y) := (c.x, c.y)
+      let pre := "call" ++ toString idx ++ "-" ++ c.entry ++ " "
+      let full := nm == 0
+      let small := x.length ≤ 64 && y.length ≤ 64
+      let exact := full && small
+      if isSentinel o then
+        if overBudget x y then .ok ["sentinel", "big"]
+        else .error ("reject " ++ pre ++ "sentinel-although-the-matrix-is-within-the-cell-budget")
+      else if full && overBudget x y then .error ("reject " ++ pre ++ "band-over-budget-but-no-sentinel")
+      else if !acceptValid sc cl' filt x y o then
+        .error ("reject " ++ pre ++ (if IsAln x y o.toAln ∧ ClipRule filt x y o ∧ splitGapShape sc cl' x y o
+          then "split-gap-" else "") ++ whyInvalid sc cl' filt x y o)
+      else if exact && o.score ≠ opt sc cl' x y then
+        .error ("diff " ++ pre ++ "fullband-optimum:" ++ toString (opt sc cl' x y) ++ "-reported:" ++ toString o.score)
+      else if !acceptBanded sc cl' filt x y full exact o then .error ("reject " ++ pre ++ "acceptBanded-false")
+      else if rest.contains "h:differs" then .error ("reject " ++ pre ++ "history-dependent")
+      else if !rest.contains "h:same" then .error "bad-op no-history-field"
+      else
+        let core := coreOps o.ops
+        -- coverage only: how often the band loses the optimum (never a violation)
+        let cmp := if !full && x.length ≤ 12 && y.length ≤ 12 then
+            (if o.score = opt sc cl' x y then ["band=opt"] else ["band<opt"]) else []
+        .ok ((if !x.isEmpty && !y.isEmpty && !core.isEmpty then ["nt"] else [])
+          ++ [c.entry] ++ cmp
+          ++ (if full then ["fullband"] else ["banded"])
+          ++ (if !small then ["big"] else [])
+          ++ (if x.isEmpty || y.isEmpty then ["emptyseq"] else [])
+          ++ (if hasClip o.ops then ["clipops"] else [])
+          ++ (if o.xs > 0 || o.ys > 0 then ["preclip"] else [])
+          ++ (if o.xe < x.length || o.ye < y.length then ["sufclip"] else [])
+          ++ (if core.contains .ins && core.contains .del then ["insdel"] else []))
+  | _, _ => .error "bad-op call-args"
+
+def dedup (l : List String) : List String := l.foldl (fun acc s => if acc.contains s then acc else acc ++ [s]) []
+
+def verdict (toks : List String) (out : String) : String :=
+  match toks with
+  | ["const"] => if out = "min:" ++ toString minScore then "ok const" else "diff min:" ++ toString minScore
+  | [capT, kwT, scT, wT, callsT] =>
+    if !(capT.startsWith "cap:") then "bad-op cap" else
+    match kwT.splitOn ":" with
+    | ["kw", ks, ws] =>
+      match parseNat ks, parseNat ws, parseScTok scT, parseWTok wT with
+      | some k, some w, some (go, ge, cl), some (alpha, tab) =>
+        match parseListNE (parseCall alpha) callsT ';' with
+        | none => "bad-op calls"
+        | some calls =>
+        if out.startsWith "PANIC" || out.startsWith "HANG" || out.startsWith "CRASH" then "reject " ++ out else
+        let outs := out.splitOn ";"
+        if outs.length ≠ calls.length then "bad-op arity" else
+        let sc : Sc := ⟨mkW alpha tab, go, ge⟩
+        let rec go' (i : Nat) (cs : List Call) (os : List String) (tags : List String) : Except String (List String) :=
+          match cs, os with
+          | c :: cs, o :: os =>
+            match checkCall sc cl k i c o with
+            | .error e => .error e
+            | .ok t => go' (i + 1) cs os (tags ++ t)
+          | _, _ => .ok tags
+        match go' 0 calls outs [] with
+        | .error e => e
+        | .ok tags =>
+          let tags := dedup (tags
+            ++ ["k" ++ toString k, "w" ++ toString w]
+            ++ (if calls.length > 1 then ["reuse"] else [])
+            ++ (if ge = 0 then ["ge0"] else []) ++ (if go = 0 then ["go0"] else []))
+          " ".intercalate ("ok" :: tags)
+      | _, _, _, _ => "bad-op parse"
+    | _ => "bad-op kw"
+  | _ => "bad-op arity"
 
 end RbV.Drv.C02
